@@ -20,6 +20,11 @@ impl SharedGroup {
         }
     }
 
+    #[cfg(feature = "verif-hooks")]
+    pub(crate) fn verif_members(&self) -> (Vec<String>, usize) {
+        (self.clients.clone(), self.current_client_index)
+    }
+
     pub fn is_empty(&self) -> bool {
         self.clients.is_empty()
     }
